@@ -25,6 +25,8 @@ pub struct PCase {
     pub second: Vec<Option<(i64, bool)>>,
     pub arms: Vec<Arm>,
     pub kinds: usize, // 0 = map_owned (+try), 1 = map (owned + ref, + try), 2 = from_owned only (patterns need no into)
+    /// literal variants carry a payload field that From fills from its #[ghost({..})] default (seed C09-04)
+    pub lit_payload: bool,
     pub tags: Vec<String>,
 }
 
@@ -114,7 +116,11 @@ pub fn gen(ctx: &mut Ctx, max_variants: usize) -> Option<PCase> {
     if !second.is_empty() {
         tags.push("two-counterparts".into());
     }
-    Some(PCase { prim, second, arms, kinds, tags })
+    let lit_payload = arms.iter().any(|a| matches!(a, Arm::Literal(_))) && ctx.flag();
+    if lit_payload {
+        tags.push("literal-variant-with-payload".into());
+    }
+    Some(PCase { prim, second, arms, kinds, lit_payload, tags })
 }
 
 impl PCase {
@@ -179,6 +185,7 @@ impl PCase {
             let vn = format!("V{}", i);
             match a {
                 Arm::Literal(k) => {
+                    let vn = if self.lit_payload { format!("{}(#[ghost({{ 5 }})] i32)", vn) } else { vn };
                     match self.second.get(i).cloned().flatten() {
                         Some((v, true)) => { let _ = writeln!(o, "    #[literal(i16| {})] #[literal({})] {},", v, self.lit(*k), vn); }
                         Some((v, false)) => { let _ = writeln!(o, "    #[literal({})] #[literal(i16| {})] {},", self.lit(*k), v, vn); }
@@ -231,8 +238,9 @@ impl PCase {
             })
             .collect();
         let zero = self.dom_lit(0);
-        let arms_s: String = self.arms.iter().enumerate().map(|(i, a)| if *a == Arm::CatchAll { format!("S::V{i}(x) => ({i}, *x), ") } else { format!("S::V{i} => ({i}, {zero}), ") }).collect();
-        let arms_sf: String = self.arms.iter().enumerate().map(|(i, a)| if *a == Arm::CatchAll { format!("Ok(Sf::V{i}(x)) => ({i}, *x), ") } else { format!("Ok(Sf::V{i}) => ({i}, {zero}), ") }).collect();
+        let pl = |a: &Arm| if self.lit_payload && matches!(a, Arm::Literal(_)) { "(..)" } else { "" };
+        let arms_s: String = self.arms.iter().enumerate().map(|(i, a)| if *a == Arm::CatchAll { format!("S::V{i}(x) => ({i}, *x), ") } else { format!("S::V{i}{} => ({i}, {zero}), ", pl(a)) }).collect();
+        let arms_sf: String = self.arms.iter().enumerate().map(|(i, a)| if *a == Arm::CatchAll { format!("Ok(Sf::V{i}(x)) => ({i}, *x), ") } else { format!("Ok(Sf::V{i}{}) => ({i}, {zero}), ", pl(a)) }).collect();
         let _ = writeln!(o, "fn sidx(s: &S) -> (i64, {ty}) {{ match s {{ {arms_s}S::Dflt => (255, {zero}) }} }}");
         let _ = writeln!(o, "fn sfidx(s: &Result<Sf, Er>) -> (i64, {ty}) {{ match s {{ {arms_sf}Err(Er(7)) => (255, {zero}), Err(_) => (254, {zero}) }} }}");
         let _ = writeln!(o, "const DOM: [{ty}; {}] = [{}];", dom.len(), dom.iter().map(|v| self.dom_lit(*v)).collect::<Vec<_>>().join(", "));
@@ -249,8 +257,9 @@ impl PCase {
             for (i, a) in self.arms.iter().enumerate() {
                 let k = if let Arm::Literal(k) = a { *k } else { 0 };
                 let v2 = self.second[i].map(|x| x.0).unwrap_or(k);
-                let _ = writeln!(o, "  r.eq(\"from_owned/i16 V{i}\", &<S as From<i16>>::from({v2}i16), &S::V{i}); r.eq(\"owned_into/i16 V{i}\", &<S as Into<i16>>::into(S::V{i}), &{v2}i16);");
-                let _ = writeln!(o, "  r.eq(\"try_from_owned/i16 V{i}\", &<Sf as TryFrom<i16>>::try_from({v2}i16), &Ok::<Sf, Er>(Sf::V{i})); r.eq(\"try_owned_into/i16 V{i}\", &<Sf as TryInto<i16>>::try_into(Sf::V{i}), &Ok::<i16, Er>({v2}i16));");
+                let pv = if self.lit_payload { "(5)" } else { "" };
+                let _ = writeln!(o, "  r.eq(\"from_owned/i16 V{i}\", &<S as From<i16>>::from({v2}i16), &S::V{i}{pv}); r.eq(\"owned_into/i16 V{i}\", &<S as Into<i16>>::into(S::V{i}{pv}), &{v2}i16);");
+                let _ = writeln!(o, "  r.eq(\"try_from_owned/i16 V{i}\", &<Sf as TryFrom<i16>>::try_from({v2}i16), &Ok::<Sf, Er>(Sf::V{i}{pv})); r.eq(\"try_owned_into/i16 V{i}\", &<Sf as TryInto<i16>>::try_into(Sf::V{i}{pv}), &Ok::<i16, Er>({v2}i16));");
                 if self.second[i].is_some() {
                     // the default literal of a variant that has a dedicated one is NOT a literal of the second type
                     let taken = (0..self.arms.len()).any(|j| { let kj = if let Arm::Literal(kj) = &self.arms[j] { *kj } else { -1 }; self.second[j].map(|x| x.0).unwrap_or(kj) == k });
@@ -263,7 +272,7 @@ impl PCase {
         if has_into {
             for (i, a) in self.arms.iter().enumerate() {
                 let (sv, sfv, exp) = match a {
-                    Arm::Literal(k) => (format!("S::V{}", i), format!("Sf::V{}", i), self.lit(*k)),
+                    Arm::Literal(k) => { let pv = if self.lit_payload { "(5)" } else { "" }; (format!("S::V{}{}", i, pv), format!("Sf::V{}{}", i, pv), self.lit(*k)) }
                     Arm::Range(_, _, v) | Arm::Or(_, _, v) | Arm::Wild(v) | Arm::Ghost(v) | Arm::Guard(v) => (format!("S::V{}", i), format!("Sf::V{}", i), self.lit(*v)),
                     Arm::CatchAll => {
                         let x = self.dom_lit(if self.prim == "str" { 3 } else { 77 });
@@ -274,7 +283,7 @@ impl PCase {
                 // round trip: with pairwise distinct literals, variant -> primitive -> variant is the identity
                 if let Arm::Literal(k) = a {
                     if self.model_from(*k) == Some(i) {
-                        let _ = writeln!(o, "  {{ let p: {ty} = <S as Into<{ty}>>::into(S::V{i}); r.eq(\"roundtrip/V{i}\", &<S as From<{ty}>>::from(p), &S::V{i}); }}");
+                        let _ = writeln!(o, "  {{ let p: {ty} = <S as Into<{ty}>>::into({sv}); r.eq(\"roundtrip/V{i}\", &<S as From<{ty}>>::from(p), &{sv}); }}");
                     }
                 }
             }
